@@ -853,6 +853,24 @@ func (x *c10) closePairing() {
 				v.Args[0].Op == "slice" && x.isSubsLoad(v.Args[0].Args[0], recv) && (v.Args[0].Args[1].Op == "none" || v.Args[0].Args[1].IsConst("0")) && v.Args[0].Args[2].Key() == idx.Key() &&
 				v.Args[1].Op == "slice" && x.isSubsLoad(v.Args[1].Args[0], recv) && ToPoly(v.Args[1].Args[1]).Equal(ToPoly(idx).Add(polyConst(1), 1)) && v.Args[1].Args[2].Op == "none"
 			if !good {
+				// equivalent: copy(subs[i:], subs[i+1:]) followed by subs = subs[:len(subs)-1]
+				shifted := false
+				for i := range p.Events {
+					e := &p.Events[i]
+					if e.Kind == "call" && e.Name == "builtin.copy" && len(e.Args) == 2 {
+						d, src := e.Args[0], e.Args[1]
+						if d.Op == "slice" && x.isSubsLoad(d.Args[0], recv) && d.Args[1].Key() == idx.Key() && d.Args[2].Op == "none" &&
+							src.Op == "slice" && x.isSubsLoad(src.Args[0], recv) && ToPoly(src.Args[1]).Equal(ToPoly(idx).Add(polyConst(1), 1)) && src.Args[2].Op == "none" {
+							shifted = true
+						}
+					}
+				}
+				if shifted && v.Op == "slice" && x.isSubsLoad(v.Args[0], recv) && (v.Args[1].Op == "none" || v.Args[1].IsConst("0")) && v.Args[2].Op != "none" {
+					lenT := &Term{Op: "builtin", Sym: "len", Args: []*Term{v.Args[0]}}
+					good = ToPoly(v.Args[2]).Equal(ToPoly(lenT).Add(polyConst(1), -1))
+				}
+			}
+			if !good {
 				ok, why = false, "the list is not spliced as subs[:i] + subs[i+1:] with the index found: "+v.String()
 			}
 			mode, _, _ := x.rwHeldAt(p, len(p.Events)-1)
